@@ -52,14 +52,15 @@ Definition get_second_best_codon (t : table) (a : aa) : result (option dna) :=
 Definition get_synonymous_codons (t : table) (c : dna) : result (list dna) :=
   do a <- translate t c; do l <- get_codons t a; Ok (filter (fun x => negb (dna_eqb x c)) l).
 
-(* TranslationSymbol.get_aa_change / CodonTable.get_aa_change / is_syn *)
+(* TranslationSymbol.get_aa_change / CodonTable.get_aa_change *)
 Inductive mut_type := Syn | Mis | Non.
 Definition aa_change (a b : aa) : mut_type :=
   if aa_eqb b STOP then Non else if aa_eqb b a then Syn else Mis.
 Definition get_aa_change (t : table) (c1 c2 : dna) : result mut_type :=
   do a <- translate t c1; do b <- translate t c2; Ok (aa_change a b).
+(* is_syn: same translation (a stop codon replaced by another stop codon included) *)
 Definition is_syn (t : table) (c1 c2 : dna) : result bool :=
-  do m <- get_aa_change t c1 c2; Ok (match m with Syn => true | _ => false end).
+  do a <- translate t c1; do b <- translate t c2; Ok (aa_eqb a b).
 
 (* distinct amino acids of the table (the keys of aa_to_codons) *)
 Fixpoint mem_aa (a : aa) (l : list aa) : bool :=
